@@ -54,7 +54,7 @@ OPS_REQUIRED = ["sort_tree", "get_subtree", "to_subtree", "cut_tree", "redirect_
                 "RadiusReseter", "Transforms"]
 REQUIRED = ["contract_evals_" + o for o in OPS_REQUIRED] + [
     "compositions_compared_with_their_members", "steps_compared_under_custom_column_names",
-    "big_branched_trees",
+    "big_branched_trees", "probe_repeat_after_output_poison",
     "steps_executed", "probe_output_poison", "probe_input_poison", "roundtrip_steps",
     "identity_transform_steps", "same_tree_in_two_argument_positions", "size_sweep_cases",
     "pipelines_starting_from_a_branch_tree", "deep_pruning_cases",
@@ -366,6 +366,24 @@ def _run_pipeline(ctx, case):
                 ctx.violation("edit-leaks-to-input", f"step {step} {label}: overwriting the result "
                                                      f"changed an input tree", case)
                 return
+        # probe 3: the overwritten result belongs to the caller; the same operation asked for again
+        # (same, untouched inputs) gives the same tree as the first time
+        try:
+            again = fn(*inputs)
+        except Exception as e:
+            ctx.violation("op-raised", f"step {step} {label} (asked again after its first result "
+                                       f"was overwritten by the caller) raised {type(e).__name__}: "
+                                       f"{str(e)[:200]}", case)
+            return
+        ctx.count("probe_repeat_after_output_poison")
+        if not same_content(saved, again) and not same_content(content(again), fn(*inputs)):
+            ctx.skip("operation not reproducible bit-for-bit; repeat-after-poison probe skipped")
+        elif not same_content(saved, again):
+            ctx.violation("edit-leaks-to-later-result",
+                          f"step {step} {label}: after the caller overwrote the first result in "
+                          f"place, the same operation on the same (untouched) inputs returned a "
+                          f"different tree", case)
+            return
         # probe 2: re-run on sacrificial inputs, poison those, the result must not notice
         try:
             out2 = fn(*copies)
